@@ -480,10 +480,12 @@ fn sigint_case(ctx: &Ctx, env: &RealEnv, dir: &std::path::Path, case: u64, rng: 
     if out.exit == Some(0) {
         rep.violation("sigint-exit-zero", &format!("build interrupted by SIGINT but exit status 0; started {:?}", out.started()), mk());
     }
-    // commands running when the signal arrived die; nothing may be started more than a grace period later
-    let late: Vec<String> = out.events.iter().filter(|e| e.kind == 'S' && e.ns > t_sig + 500_000_000).map(|e| e.step.clone()).collect();
-    if !late.is_empty() {
-        rep.violation("start-after-sigint", &format!("commands {:?} were started more than 500 ms after SIGINT", late), mk());
+    // Commands running when the signal arrived die.  Before n2 sees the first of those deaths it may
+    // still process completions that were already queued and start a successor for each: at most -j
+    // starts can follow the signal (a logical bound; no wall-clock grace period is involved).
+    let late: Vec<String> = out.events.iter().filter(|e| e.kind == 'S' && e.ns > t_sig).map(|e| e.step.clone()).collect();
+    if late.len() > inv.j.unwrap_or(16) {
+        rep.violation("start-after-sigint", &format!("{} commands ({:?}) were started after SIGINT with -j {}", late.len(), late, inv.j.unwrap_or(16)), mk());
     }
     if out.started().len() < ntasks {
         rep.nontrivial.insert(fnv(format!("sigint{}{:?}", ntasks, out.started()).as_bytes()));
